@@ -67,11 +67,13 @@ def run(c):
         "sequences up to 200 elements (a word and an edited copy, or unrelated); random nested values (tuples, lists, dicts, height "
         "<= 4) against mutated copies / unrelated values / dict reorderings; every pair of tuples/lists of up to 2 of the zero-like values None, False, 0, "", (), [] and every ordered pair of "
         "dicts of up to 2 entries over 3 (6) hashable keys incl. None and 0 and those 6 values (a key bound to None, a value "
-        "becoming None, ...); depth limits 0..5 against heights 1..5; the restart path "
+        "becoming None, ...); every tuple/list of up to 3 (4) elements over {1, 1.0, 2, 2.0, 0.0, -0.0, \"a\"} against its twin "
+        "with every number in its other ==-equal form (as is, shortened, lengthened: both swap directions of diffSlice), judged only; "
+        "depth limits 0..5 against heights 1..5; the restart path "
         "of compose with routeSize 1..30; diffEnv on pairs of environment dicts over functionEnvKeys, incl. parts nested 6..40 deep "
         "(unchanged deep part + changed shallow part, changed deep part: far above CompareLimit = 10, far below the budget 1000 of diffEnv), "
         "==-equal pairs with different encodings (1/1.0, 0.0/-0.0, sharing, dict order). Judge on the implementation: "
-        "empty iff starlark.Equal, Old()/New() are the given values, both sequences are reconstructed from the edits (recursively "
+        "empty iff starlark.Equal, Old()/New() are the given values (same type, ==, and same printed form: 1 is not 1.0, 0.0 is not -0.0), kept and deleted elements are the OLD value's elements in that identity-sensitive sense, both sequences are reconstructed from the edits (recursively "
         "through replaces), mapping edits = keys added + removed + changed, up to date iff the real encodings are equal; (false, \"environment changed\", no diff) iff the encodings differ and the "
         "environments are ==; otherwise reason = the differing parts. A case is non-trivial "
         "when the diff is not nil; distinct by driver input line.")
